@@ -22,6 +22,7 @@ EXPLANATION = (
     "return before any action or write; the only writers of the model's state field are the two property setters "
     "fed by one store per engine whose value is `transition.target`. Structural clauses only: the behaviour of "
     "arbitrary machines over arbitrary histories is not executed."
+    " Added after seeded batch 9: every id-less placeholder Event() of a transition is replaced by the named event (shared wiring rule), and no loop in the analysed code mutates the container it walks (common rule <prop>.liveiter)."
 )
 ASSUMPTIONS = ["for/else, list order and `==` on str subclasses behave as the language specifies"]
 TRUSTED = ["CPython ast grammar", "/verif/sa path enumerator and resolver"]
